@@ -39,6 +39,9 @@ Checks(r) ==
     sc_illformed |-> [a |-> ~wf, c |-> ~wf => (~r.sc.consistent /\ ~r.sc.has_ser)],
     sc_calls |-> [a |-> Len(h) > 0, c |-> r.sc.calls = ExpectedCalls(h)],
     sc_len |-> [a |-> wf, c |-> wf => r.sc.len = NOps(h)],
+    \* on_invret(op, ret) = on_invoke(op) followed by on_return(ret): same results, same verdict, same value
+    lin_invret |-> [a |-> Len(h) > 0, c |-> r.lin2.calls = ExpectedCalls(h) /\ (r.lin2.consistent <=> r.lin.consistent) /\ (wf => r.lin2.eq)],
+    sc_invret |-> [a |-> Len(h) > 0, c |-> r.sc2.calls = ExpectedCalls(h) /\ (r.sc2.consistent <=> r.sc.consistent) /\ (wf => r.sc2.eq)],
     lin_implies_sc |-> [a |-> r.lin.consistent, c |-> r.lin.consistent => r.sc.consistent],
     clone_isolated |-> [a |-> Len(h) > 0, c |-> r.parent_before = r.parent_after /\ r.clone_eq_replay]
   ]
